@@ -200,7 +200,7 @@ def _main(a, seed, t_start):
         print('CHECKER-ERROR property=%s' % prop)
         return 3
     n_obl = len(all_results)
-    if n_obl < spec.floor:
+    if n_obl < spec.floor and not a.only:
         print('CHECKER-ERROR property=%s: only %d obligations generated (floor %d): vacuous run' % (prop, n_obl, spec.floor))
         return 3
 
@@ -372,7 +372,11 @@ def _main(a, seed, t_start):
                 'non-trivial = needed a solver query (not syntactically true); bounded inputs counted separately',
         'exhaustive': bool(spec.exhaustive),
     }
-    cov.update(extra.get('coverage', {}))
+    for k, v in extra.get('coverage', {}).items():
+        if k == 'bounded_pipeline_checks':
+            cov['bounded_checks'] = cov.get('bounded_checks', []) + v
+        else:
+            cov[k] = v
     ev = {'property_id': prop, 'tier': a.tier, 'seed': seed, 'level': level, 'coverage': cov,
           'assumptions': TRUSTED_BASE + list(spec.assumptions), 'wall_s': round(wall, 2),
           'violations': len(violations)}
